@@ -206,7 +206,8 @@ func runPARSLICE(c *Ctx) {
 				// a slice helper applied to node.Key / node.Value (removeAt(node.Key, i)): the integer
 				// arguments are the "bounds" that both calls must agree on
 				if call, isCall := ins.(*ssa.Call); isCall {
-					if callee := ir.Callee(call.Call); callee != nil && callee.Blocks != nil && callee.Pkg != nil {
+					_, isStd := stdSliceOp(call)
+					if callee := ir.Callee(call.Call); callee != nil && ((callee.Blocks != nil && callee.Pkg != nil) || isStd) {
 						for ai, a := range call.Call.Args {
 							base, f, ok := nodeSliceRoot(a)
 							if !ok || (f != "Key" && f != "Value") {
